@@ -41,6 +41,7 @@ type run struct {
 	nexts        int
 	memberChange bool
 	emptyAtNext  [maxSeats]bool // seat was empty when the last successful Next() returned
+	lastDealer   int            // dealer after the last successful Next(), as remembered by the harness (-1: none yet)
 	// concurrent mode
 	sc    *sched
 	hist  []porcupine.Operation
@@ -61,6 +62,7 @@ func newRun(cfg *Cfg, opt sim.Options) *run {
 	p := opt.Property
 	r.on = func(id string) bool { return p == "" || p == id }
 	r.mod.n = cfg.Max
+	r.lastDealer = -1
 	r.order = sim.NewRNG(cfg.OrderKey)
 	rand.Seed(cfg.RandSeed)
 	sm.VerifOrder = func(a, b []int) {
@@ -160,13 +162,24 @@ func (r *run) exec(op opSpec) (res opResult) {
 		res.Err = errName(r.m.Reserve(op.Seat))
 	case "next":
 		res.Err = errName(r.m.Next())
+	case "restart":
+		// crash / restart: the table layer keeps the seat map as a
+		// SeatManagerState and rebuilds the manager with ApplyStates
+		st := &sm.SeatManagerState{Max: r.cfg.Max, Seats: map[int]*sm.Seat{}, Dealer: seatID(r.m.Dealer()), SB: seatID(r.m.SmallBlind()), BB: seatID(r.m.BigBlind())}
+		for _, s := range r.m.GetSeats() {
+			c := *s
+			st.Seats[s.ID] = &c
+		}
+		nm := sm.NewSeatManager(r.cfg.Max)
+		res.Err = errName(nm.ApplyStates(st))
+		r.m = nm
 	}
 	return
 }
 
 func stepOf(op opSpec) sim.Step {
 	st := sim.Step{Actor: "player", Op: op.Kind}
-	if op.Kind == "next" {
+	if op.Kind == "next" || op.Kind == "restart" {
 		st.Actor = "table"
 		return st
 	}
@@ -205,6 +218,19 @@ func (r *run) seqOp(op opSpec) opResult {
 	if op.Kind == "next" {
 		r.nexts++
 		r.judgeNext(before, dBefore, res)
+	}
+	if op.Kind == "restart" {
+		after := r.seats()
+		same := len(after) == len(before) && seatID(r.m.Dealer()) == dBefore
+		for i := range before {
+			if same && before[i] != after[i] {
+				same = false
+			}
+		}
+		if !same {
+			r.viol("C18", "restart-changed-the-seat-map", fmt.Sprintf("before %v dealer %d, after %v dealer %d", before, dBefore, after, seatID(r.m.Dealer())))
+			r.viol("C17", "restart-lost-the-button", fmt.Sprintf("dealer %d before the restart, %d after", dBefore, seatID(r.m.Dealer())))
+		}
 	}
 	r.crossCheck()
 	// coverage measure
@@ -328,6 +354,15 @@ func (r *run) judgeNext(before []seatView, dBefore int, res opResult) {
 	after := r.seats()
 	P := playable(after)
 	d := seatID(r.m.Dealer())
+	// the previous dealer is the one the harness remembers from the last
+	// successful Next(), not what the object says now
+	if dBefore != r.lastDealer {
+		r.viol("C17", "button-moved-between-hands", fmt.Sprintf("dealer was %d after the last successful Next(), it is %d before this one", r.lastDealer, dBefore))
+		dBefore = r.lastDealer
+	}
+	if res.Err == "" {
+		r.lastDealer = d
+	}
 	if res.Err != "" {
 		r.probe("next-refused")
 		if res.Err != "ErrInsufficientNumberOfPlayers" {
@@ -556,6 +591,7 @@ func (r *run) genSeq(rng *sim.RNG) {
 	// swarm: per-run operation mix
 	w := []int{30 + rng.Intn(30), 10 + rng.Intn(25), 25 + rng.Intn(25), 4 + rng.Intn(12), 25 + rng.Intn(40)} // join leave sit reserve next
 	junkRate := []float64{0, 0.03, 0.1}[rng.Intn(3)]
+	restartRate := []float64{0, 0.05, 0.2}[rng.Intn(3)]
 	quietRate := 0.0
 	if r.on("C08") {
 		quietRate = []float64{0.05, 0.15, 0.3}[rng.Intn(3)]
@@ -616,6 +652,16 @@ func (r *run) genSeq(rng *sim.RNG) {
 			op = opSpec{Kind: "reserve", Seat: pickSeat(func(s int) bool { return r.mod.occ[s] != 0 && !r.mod.res[s] })}
 		case 4:
 			op = opSpec{Kind: "next"}
+		}
+		if rng.Chance(restartRate) {
+			r.res.Count("fault.restart", 1)
+			st := stepOf(opSpec{Kind: "restart"})
+			st.Fault = "crash-restart"
+			r.record(st)
+			r.seqOp(opSpec{Kind: "restart"})
+			if r.dead {
+				break
+			}
 		}
 		fault := ""
 		if op.Kind != "next" && rng.Chance(junkRate) {
